@@ -374,7 +374,15 @@ class Program:
                 if off is None:
                     continue
                 if role in ("use", "bind", "def", "param", "global", "nonlocal", "import-as"):
-                    out[(p, off)] = (self.key_of(modname, sc, name), name, role)
+                    k = self.key_of(modname, sc, name)
+                    if role == "use" and sc.kind == "class" and name in sc.bound and name not in sc.globals_decl and name not in sc.nonlocals:
+                        outer = resolve(sc.parent, name, c.module) if sc.parent.kind != "class" else ("unbound", name)
+                        if isinstance(outer[0], Sc) or outer[0] == "builtin":
+                            # LOAD_NAME in a class body: the class-local binding if already executed,
+                            # else the enclosing/global one -- flow dependent, not statically determined
+                            k = ("ambiguous", sc.path(), name)
+                            c.flags.setdefault(off, set()).add("classfall")
+                    out[(p, off)] = (k, name, role)
                 elif role == "import-from":
                     target = self._abs(modname, is_pkg, t[4], t[5])
                     k = self._follow(target, name)
